@@ -14,7 +14,8 @@ RULE = ("exhaustive: attempts 1..4 (thorough 1..5) x all outcome sequences of th
         "Sub2(Base), Unrelated} x all disjoint (retry_for, do_not_retry_for) subset pairs x spellings tuple/list/set/None x "
         "retry_delay {0, 0.25}; every overlapping pair and other invalid configurations must be rejected at construction; "
         "outcomes that are not Exceptions (KeyboardInterrupt, SystemExit, a BaseException subclass) are never retried; sessions of 2-4 "
-        "calls through one wrapper; methods reached through __getattr__ and the item protocol. Non-trivial = sequence contains >=1 exception; distinct by the full case.")
+        "calls through one wrapper; two threads with one call each on one wrapper, every schedule with <=2 (thorough 3) preemptions at "
+        "line granularity inside retrying.py; methods reached through __getattr__ and the item protocol. Non-trivial = sequence contains >=1 exception; distinct by the full case.")
 ASSUMPTIONS = ["which exception type rejects an invalid configuration is not demanded (ValueError or TypeError)",
                "'exception' is read as the statement's last sentence uses it: a subclass of Exception (KeyboardInterrupt in a list is a "
                "'non-exception class' and rejected); an outcome that is a BaseException only matches no configuration and is not retried"]
@@ -240,6 +241,119 @@ def run_session(res, retrying, attempts, seqs, rf, dn, how, delay):
         retrying.sleep = saved
 
 
+def _codes_of(cls):
+    out = []
+
+    def walk(code):
+        if code in out:
+            return
+        out.append(code)
+        for c in code.co_consts:
+            if hasattr(c, "co_code"):
+                walk(c)
+    for f in vars(cls).values():
+        f = getattr(f, "__func__", f)
+        if callable(f) and hasattr(f, "__code__"):
+            walk(f.__code__)
+    return out
+
+
+def two_threads(res, retrying, tier):
+    """Two threads, one RetryingClient (what wrapping a PooledClient invites), one call each, every schedule with at most
+    P preemptions at line granularity inside retrying.py: each caller gets its own result / its own final exception, and
+    the attempts and sleeps of the two calls do not mix."""
+    from vk import sched as S
+    S.install(_codes_of(retrying.RetryingClient), "line")
+    scripts = [(("Base",), ("Sub1",)), (("Base", "ok"), ("Unrelated",)), (("ok",), ("Base", "Base")), (("Sub2", "Sub1"), ("Base", "ok"))]
+    P = 2 if tier == "quick" else 3
+    for attempts in (1, 2):
+        for sa, sb in scripts:
+            sa, sb = sa[:attempts], sb[:attempts]
+            stack = [({}, 0)]
+            executed = 0
+            while stack and executed < (400 if tier == "quick" else 4000):
+                forced, used = stack.pop()
+                sch = S.Sched(2, forced)
+                inners, outs = [], {}
+                events = {0: [], 1: []}
+
+                class PerThreadInner:
+                    # one scripted outcome list per calling thread (the threads use different keys)
+                    def get(self_, key, *a, **k):
+                        t = sch.me()
+                        events[t].append("call")
+                        script = (sa, sb)[t]
+                        o = script[events[t].count("call") - 1] if events[t].count("call") <= len(script) else "ok"
+                        if o == "ok":
+                            r = ("result-of-thread", t, object())
+                            outs.setdefault(("returned", t), []).append(r)
+                            return r
+                        e = CLASSES[o]("scripted %s for thread %d" % (o, t))
+                        outs.setdefault(("raised", t), []).append(e)
+                        raise e
+                rc = retrying.RetryingClient(PerThreadInner(), attempts=attempts, retry_delay=0.25)
+                saved = retrying.sleep
+                retrying.sleep = lambda d: events[sch.me()].append("sleep")
+
+                def prog(t):
+                    def run():
+                        try:
+                            outs[("out", t)] = ("ret", rc.get("key-%d" % t))
+                        except S.SchedAbort:
+                            raise
+                        except BaseException as e:
+                            outs[("out", t)] = ("exc", e)
+                    return run
+                try:
+                    ok = sch.run([prog(0), prog(1)])
+                finally:
+                    retrying.sleep = saved
+                executed += 1
+                res.count("two_thread_schedules")
+                res.count("inner_invocations", events[0].count("call") + events[1].count("call"))
+                res.count("sleeps_observed", events[0].count("sleep") + events[1].count("sleep"))
+                case = ("two-threads", attempts, sa, sb, sorted(forced.items(), key=repr))
+                sig = tuple((i, a, b) for i, a, b, pre in sch.switches)
+                res.case(("two-threads", attempts, sa, sb, sig) if sch.switches else None)
+                bad = None
+                if not ok or sch.deadlock or sch.errors:
+                    bad = ("two-threads:did-not-complete", "deadlock %r errors %r" % (sch.deadlock, sch.errors))
+                else:
+                    for t, script in ((0, sa), (1, sb)):
+                        ncalls, kind = predict(attempts, script + ("ok",) * attempts, (), ())
+                        want = ["call"] + ["sleep", "call"] * (ncalls - 1)
+                        out = outs.get(("out", t))
+                        if events[t] != want:
+                            bad = ("two-threads:wrong-events", "thread %d: events %r, expected %r" % (t, events[t], want))
+                        elif kind == "ok" and not (out[0] == "ret" and out[1] is outs[("returned", t)][-1]):
+                            bad = ("two-threads:wrong-result", "thread %d got %r" % (t, out))
+                        elif kind == "raise" and not (out[0] == "exc" and out[1] is outs[("raised", t)][-1]):
+                            bad = ("two-threads:wrong-exception", "thread %d got %r; its own last attempt raised %r (scripts %r / %r)"
+                                   % (t, out, outs[("raised", t)][-1:], sa, sb))
+                if bad:
+                    res.violation(bad[0], bad[1] + " ; schedule %r" % (sorted(forced.items(), key=repr),), case)
+                    break
+                last = max([k for k in forced if isinstance(k, int)], default=-1)
+                for (i, me, run, kind) in sch.trace:
+                    if i == "start":
+                        if not forced:
+                            stack.extend(({"start": t}, used) for t in run[1:])
+                        continue
+                    if i <= last:
+                        continue
+                    if kind in ("block", "finish"):
+                        for t in run[1:]:
+                            f = dict(forced)
+                            f[i] = t
+                            stack.append((f, used))
+                    elif used < P:
+                        for t in run:
+                            if t != me:
+                                f = dict(forced)
+                                f[i] = t
+                                stack.append((f, used + 1))
+
+
 def invalid_configs(res, retrying):
     inner = Inner([], [])
     bad = [
@@ -319,6 +433,8 @@ def shard(tier, seed, idx, n):
                     continue
                 run_session(res, retrying, attempts, seqs, rf, dn, how, (0, 0.25)[si % 2])
                 res.case(("session", attempts, seqs, rf, dn))
+    if idx == 1 % n:
+        two_threads(res, retrying, tier)
     if idx == 0:
         invalid_configs(res, retrying)
     else:
@@ -333,6 +449,8 @@ def replay(case):
     from pymemcache.client import retrying
     if case[0] in ("invalid", "valid"):
         invalid_configs(res, retrying)
+    elif case[0] == "two-threads":
+        two_threads(res, retrying, "quick")
     elif case[0] == "session":
         run_session(res, retrying, *[tuple(map(tuple, x)) if i == 1 else (tuple(x) if isinstance(x, list) else x)
                                      for i, x in enumerate(case[1:])])
